@@ -398,6 +398,16 @@ def couldModify (t : Target) : Bool := t.postBuild || !t.outputDirs.isEmpty
 def postBuildSer (F : Facts) (c : Ctx) (t0 t : Target) : Bytes :=
   if couldModify t then ruleSer F c t else ruleSer F c t0
 
+/-! ### when the memoised rule hash is first computed, relative to the pre-build function -/
+
+/-- What `buildTarget` works with: `RuleHash(state, target, false, false)` memoises its first result in
+    `target.RuleHash` and nothing resets it, so `needsBuilding`, `writeRuleHash`, the cache key and the remote action
+    digest all see the hash of the target *as it was at that first call*.  `pb` is what the target's pre-build function
+    does to it (`set_command`, `add_out`, `add_dep`, labels …); `early` is the regenerated fact "some call that memoises
+    the rule hash is reachable in `Build()` / `buildTarget()` before `RunPreBuildFunction`". -/
+def stampSer (F : Facts) (c : Ctx) (early : Bool) (pb : Target → Target) (t : Target) : Bytes :=
+  if early then ruleSer F c t else ruleSer F c (pb t)
+
 /-! ### a framed encoding over the same schema (the repair) -/
 
 /-- Unary length header (stands for any self-delimiting length, e.g. 8 bytes big-endian in Go). -/
